@@ -93,8 +93,8 @@ def r1(idx, rep, tier):
 
     rows = 0
     bad = {}
-    cur_dom = [None, 1, 2, 3]
-    new_dom = [None, 1, 2, 3, "true", "false"]
+    cur_dom = [None, 0, 1, 2, 3]
+    new_dom = [None, 0, 1, 2, 3, "true", "false"]
     for bits in itertools.product([False, True], repeat=len(QUALS)):
         q = dict(zip(QUALS, bits))
         for dm in (True, False):
@@ -105,6 +105,8 @@ def r1(idx, rep, tier):
                             continue
                         if isinstance(new, str) and cur is not None:
                             continue
+                        if (cur == 0 or new == 0) and (q["increase"] or q["decrease"]):
+                            continue  # 0 with increase/decrease is outside the documented table (falsy-value corner)
                         rows += 1
                         it = Interp(idx, types={"self": "Equality"},
                                     inline={"Equality._latch_and_onchange", "Equality._set_variable_if", "Equality._test_friendly_line_matches"},
